@@ -45,11 +45,17 @@ Proof.
   intros. unfold fail_run. eapply nl_trans; [apply nl_with_session|]. apply nl_log_event. destruct c; auto. contradiction.
 Qed.
 
+Lemma unusable_code_not_limit : forall a s ri m, m <> FStepLimit -> unusable_code a s ri m <> FStepLimit.
+Proof.
+  intros a s ri m H. unfold unusable_code.
+  destruct (get_run s ri) as [rn|]; [destruct (get_flow a (r_flow rn))|]; auto; discriminate.
+Qed.
+
 Ltac nl_chain :=
   repeat first
     [ apply nl_refl
     | eapply nl_trans; [|apply nl_log_event; reflexivity]
-    | eapply nl_trans; [|apply nl_fail_run; discriminate]
+    | eapply nl_trans; [|apply nl_fail_run; first [discriminate | apply unusable_code_not_limit; discriminate]]
     | eapply nl_trans; [|apply nl_with_session]
     | eapply nl_trans; [|apply nl_log_segment] ].
 
